@@ -164,3 +164,24 @@ check(
     level_note="trusted: long double reference sums; tolerances derived from the rounding analysis of the definitions (margins recorded in the evidence)",
     assumptions=["coefficient vectors of length 1 are outside the quantifier (2..1024)"],
 )
+
+check(
+    "C08",
+    runs=[dict(harness="C08_multirate", flavour="plain")],
+    rule=("all reduced L/M with L,M<=16 plus audio ratios (160/441, 441/160, 147/160, 160/147, 320/147, 147/320): FIRInterpolator / "
+          "FIRDecimator / FIRRateConverter / FIRResampler with the default design and with random symmetric h of lengths that are and are "
+          "not multiples of L or M; the integer phase c is found on a calibration input by exhaustive search (unique exact fit) and must then "
+          "explain every output of further inputs (random, impulses, swept tone) under random framings in multiples of M "
+          "(|y[i]-v[iM+c]| <= 16*eps*sum|g|*max|x|); output counts len*L/M; non-multiple frames must throw; resample(x,p,q) for every "
+          "reduced p,q<=16 + audio + non-reduced ratios: no exception, length p'*ceil(len/q'), identity for p=q, LS-fitted alignment "
+          "|tau|<=1 output sample and residual <= 1% for 1..3 tones. distinct = (configuration, input bits)."),
+    exhaustive_subspaces={"quick": ["all reduced ratios L/M with L,M in 1..16 (159) + 8 audio ratios"], "thorough": ["all reduced ratios L/M with L,M in 1..16 (159) + 8 audio ratios"]},
+    min_distinct={"quick": 2000, "thorough": 4000},
+    min_obs={"quick": {"resample_accuracy_cases": 200, "non_multiple_frames": 300}, "thorough": {"resample_accuracy_cases": 400, "non_multiple_frames": 300}},
+    technique="runtime monitor: long-double reference polyphase chain with phase calibrated once per configuration; least-squares tone fit for resample()",
+    level_text=("Every converter configuration of the grid is executed on several inputs and framings and each output sample is compared "
+                "with one fixed phase of the textbook chain evaluated in extended precision; resample() is judged on length, alignment and "
+                "residual. Held on the outputs counted in the evidence."),
+    level_note="trusted: long double chain reference; the default coefficient vector is taken from design_multirate_fir() as the given h",
+    assumptions=["custom h are symmetric with positive-dominant taps so that sum(h) is well away from zero"],
+)
